@@ -8,10 +8,13 @@ import (
 	"bufio"
 	"flag"
 	"fmt"
+	"io"
+	"log"
 	"math/rand"
 	"os"
 	"sort"
 	"strings"
+	"time"
 )
 
 // A Prop knows how to generate cases and how to run one case on the implementation.
@@ -30,7 +33,7 @@ var props = map[string]*Prop{}
 
 func register(id string, p *Prop) { props[id] = p }
 
-func safeRun(p *Prop, c string) (obs string) {
+func safeRun1(p *Prop, c string) (obs string) {
 	defer func() {
 		if r := recover(); r != nil {
 			msg := fmt.Sprint(r)
@@ -41,7 +44,23 @@ func safeRun(p *Prop, c string) (obs string) {
 	return p.Run(c)
 }
 
+// safeRun adds a watchdog: a case that does not return within caseTimeout is reported as HANG
+// (its goroutine is abandoned).
+func safeRun(p *Prop, c string) string {
+	ch := make(chan string, 1)
+	go func() { ch <- safeRun1(p, c) }()
+	select {
+	case o := <-ch:
+		return o
+	case <-time.After(caseTimeout):
+		return "HANG"
+	}
+}
+
+var caseTimeout = 10 * time.Second
+
 func main() {
+	log.SetOutput(io.Discard) // the code under test logs freely
 	if len(os.Args) < 3 {
 		fmt.Fprintln(os.Stderr, "usage: siot-diff gen|replay <prop> [-seed N] [-n K] [-tier quick|thorough]")
 		os.Exit(2)
